@@ -717,6 +717,27 @@ func (ps *plServer) setList(t *testing.T, i int, on bool) (rebuilt bool) {
 	return rebuilt
 }
 
+// setFiltering posts filtering/config with the GLOBAL filtering flag in lists
+// mode (round 8); the rebuild the handler queues is carried out at once, as
+// after every change of this mode.
+func (ps *plServer) setFiltering(t *testing.T, out *vfOut, on bool) {
+	t.Helper()
+	code, text := ps.post(t, "/control/filtering/config", map[string]any{"enabled": on, "interval": 0})
+	if code != http.StatusOK {
+		t.Fatalf("filtering/config enabled=%v: %d %s", on, code, text)
+	}
+	ps.runPending(t)
+	ps.changes++
+	ps.cfg.Filtering = on
+	ps.histSteps = append(ps.histSteps, vfApp("SFilt", vfBool(on)))
+	ps.histDesc = append(ps.histDesc, fmt.Sprintf("filtering/config enabled=%v", on))
+	if on {
+		out.Class("lists-global-filtering-switched-on")
+	} else {
+		out.Class("lists-global-filtering-switched-off")
+	}
+}
+
 // recordAsk appends the query just run (and what was observed) to the history.
 func (ps *plServer) recordAsk(q *plQuery, o *plObs) {
 	ctor := "SAsk"
@@ -2183,6 +2204,10 @@ func plRunLists(t *testing.T, out *vfOut, r *vfRand, ps *plServer, steps int, ge
 	emit func(ps *plServer, q *plQuery, extra ...string)) {
 	c := ps.cfg
 	for k := 0; k < steps; k++ {
+		if k > 0 && r.Chance(1, 8) {
+			ps.setFiltering(t, out, !c.Filtering)
+			continue
+		}
 		if k > 0 && r.Chance(2, 5) {
 			i := r.Intn(len(c.Lists))
 			if r.Bool() {
@@ -2679,6 +2704,9 @@ type plProt struct {
 	bad     string
 	flag0   bool
 	until0  *int64
+	// cfg0 is the configuration at the start of the history (the blocking
+	// configuration changes with PrBlocking steps)
+	cfg0 string
 	classes map[string]bool
 }
 
@@ -2702,6 +2730,7 @@ func plStartProt(ps *plServer) *plProt {
 		pp.swKind = 1
 	}
 	ps.askCtor = "PrAsk"
+	pp.cfg0 = ps.cfg.Coq()
 	return pp
 }
 
@@ -2834,6 +2863,53 @@ func (pp *plProt) conf(t *testing.T, enabled bool) {
 	pp.raw()
 }
 
+// blocking: POST /control/dns_config with blocking_mode (custom_ip with its two
+// addresses) and / or blocked_response_ttl (round 8).  The configuration the
+// monitors judge by (plCfg.Mode / IP4 / IP6 / TTL) is the LAST ACCEPTED one,
+// stated from the requests made; SetBlockingMode keeps the addresses of a mode
+// other than custom_ip.
+func (pp *plProt) blocking(t *testing.T, mode filtering.BlockingMode, v4, v6 netip.Addr, ttl int) {
+	t.Helper()
+	c := pp.ps.cfg
+	body := map[string]any{}
+	if mode != "" {
+		body["blocking_mode"] = string(mode)
+		if mode == filtering.BlockingModeCustomIP {
+			body["blocking_ipv4"], body["blocking_ipv6"] = v4.String(), v6.String()
+		}
+	}
+	if ttl >= 0 {
+		body["blocked_response_ttl"] = ttl
+	}
+	data, _ := json.Marshal(body)
+	code, text := plCall(pp.ps.s.handleSetConfig, http.MethodPost, string(data))
+	if code != http.StatusOK {
+		t.Fatalf("dns_config %s: %d %s", data, code, text)
+	}
+	if mode != "" {
+		if mode == c.Mode {
+			pp.classes["prot-blocking-same-mode-resent"] = true
+			if mode == filtering.BlockingModeCustomIP && (v4 != c.IP4 || v6 != c.IP6) {
+				pp.classes["prot-blocking-custom-ip-other-addresses"] = true
+			}
+		}
+		c.Mode = mode
+		a4, a6 := c.IP4, c.IP6
+		if mode == filtering.BlockingModeCustomIP {
+			c.IP4, c.IP6 = v4, v6
+			a4, a6 = v4, v6
+		}
+		pp.step(vfApp("PrBlocking", vfApp("BMode", plModeCoq(mode), vfAddrCoq(a4), vfAddrCoq(a6))), "")
+		pp.classes["prot-blocking-mode-set"] = true
+	}
+	if ttl >= 0 {
+		c.TTL = uint32(ttl)
+		pp.step(vfApp("PrBlocking", vfApp("BTTL", vfN(uint64(ttl)))), "")
+		pp.classes["prot-blocked-ttl-set"] = true
+	}
+	pp.desc = append(pp.desc, fmt.Sprintf("at %+dh POST /control/dns_config %s", pp.vnow/plHourMS, data))
+}
+
 // advance lets h hours pass: a pending deadline comes closer by the same amount.
 func (pp *plProt) advance(hours int64) {
 	pp.vnow += hours * plHourMS
@@ -2953,7 +3029,7 @@ func (pp *plProt) historyCase() vfCase {
 	defs := append([]vfDef{}, ps.histDefs...)
 	saved := c.ProtBySwitch
 	c.ProtBySwitch = nil
-	cfgCoq := c.Coq()
+	cfgCoq := pp.cfg0
 	desc := c.Desc()
 	c.ProtBySwitch = saved
 	coq := vfApp("CProt", cfgCoq, vfRulesCoq(c.Allow), vfRulesCoq(c.BlockRules()), vfBytesList(c.SBHosts), vfBytesList(c.ParHosts),
@@ -3031,8 +3107,21 @@ func plRunProt(t *testing.T, out *vfOut, r *vfRand, ps *plServer, steps int, gen
 			pp.set(t, true, int64(1+r.Intn(2))*plHourMS, false)
 		case x < 9:
 			pp.conf(t, r.Bool())
-		case x < 12:
+		case x < 11:
 			pp.advance(int64(1 + r.Intn(3)))
+		case x < 12:
+			// the blocking configuration: half of the time the mode in force
+			// again (custom_ip: with other addresses)
+			mode := vfPick(r, plModes)
+			if r.Bool() {
+				mode = ps.cfg.Mode
+			}
+			ttl := -1
+			if r.Chance(1, 3) {
+				ttl = vfPick(r, []int{0, 7, 10, 3600})
+			}
+			pp.blocking(t, mode, netip.MustParseAddr(vfPick(r, []string{"192.0.2.1", "10.9.9.9", "192.0.2.33"})),
+				netip.MustParseAddr(vfPick(r, []string{"2001:db8::9", "fd99::1", "2001:db8::33"})), ttl)
 		case x < 13:
 			pp.status(t)
 		default:
@@ -3139,6 +3228,28 @@ func plProtPrelude(t *testing.T, out *vfOut, mkServer func(protOn bool, deadline
 		pp.advance(1)
 		pp.lateSwitch(t, true, 0)
 		ask("prelude-prot-on-in-wakeup-window")
+	})
+	// the blocking configuration changed while the server runs: custom_ip sent
+	// again with other addresses, other modes, the TTL; every blocked answer is
+	// that of the LAST configuration
+	run(true, 0, func(pp *plProt, ask func(extra ...string)) {
+		ip := netip.MustParseAddr
+		pp.blocking(t, filtering.BlockingModeCustomIP, ip("192.0.2.40"), ip("2001:db8::40"), -1)
+		ask("prelude-blocking-custom-ip")
+		ask("prelude-blocking-custom-ip")
+		pp.blocking(t, filtering.BlockingModeCustomIP, ip("192.0.2.41"), ip("2001:db8::41"), -1)
+		ask("prelude-blocking-custom-ip-other-addresses")
+		ask("prelude-blocking-custom-ip-other-addresses")
+		pp.blocking(t, "", netip.Addr{}, netip.Addr{}, 77)
+		ask("prelude-blocking-ttl-changed")
+		pp.blocking(t, filtering.BlockingModeNullIP, netip.Addr{}, netip.Addr{}, -1)
+		ask("prelude-blocking-null-ip")
+		pp.blocking(t, filtering.BlockingModeCustomIP, ip("192.0.2.42"), ip("2001:db8::42"), 5)
+		ask("prelude-blocking-custom-ip-again")
+		ask("prelude-blocking-custom-ip-again")
+		pp.blocking(t, filtering.BlockingModeNXDOMAIN, netip.Addr{}, netip.Addr{}, -1)
+		pp.blocking(t, filtering.BlockingModeNXDOMAIN, netip.Addr{}, netip.Addr{}, -1)
+		ask("prelude-blocking-nxdomain")
 	})
 	// servers started inside a pause and after one
 	run(false, 1, func(pp *plProt, ask func(extra ...string)) {
